@@ -104,3 +104,33 @@ func VerifC18_Concrete() {
 	zzverif.Assert(eerr == nil, "Example() succeeds for an accepted regex schema")
 	zzverif.Assert(re.Match(ex), "the example is matched by the pattern")
 }
+
+// vHardPatterns compile but the example generator cannot (or can hardly)
+// produce a string for them.
+var vHardPatterns = []string{
+	"[^\\x00-\\x{10FFFF}]", "a[^\\x00-\\x{10FFFF}]b", "[^\\x00-\\x{10FFFF}]*", "$a", "a^", "\\b\\B", "(?:)", "a{0}", "[^\\s\\S]", "\\z\\A", "\\pL", "[[:^ascii:]]", "\\x{10FFFF}", ".{1000}",
+}
+
+// VerifC02_RegexExample: Example() of an accepted regex schema returns bytes
+// or an error - also for patterns no string can be generated for.
+func VerifC02_RegexExample() {
+	zzverif.Expect("example", "error")
+	zzverif.BoundIsViolation()
+	all := append(append([]string{}, vPatterns...), vHardPatterns...)
+	p := all[zzverif.IntRange("pattern", 0, len(all)-1)]
+	r := New("r", "/"+p+"/")
+	if r.Check() != nil {
+		return
+	}
+	again := zzverif.Bool("again")
+	ex, err := r.Example()
+	if again {
+		ex, err = r.Example()
+	}
+	if err == nil {
+		zzverif.Reach("example")
+		_ = ex
+	} else {
+		zzverif.Reach("error")
+	}
+}
